@@ -867,3 +867,102 @@ Proof.
   - split; [intros m1 q1 [E|E]; discriminate E|split; [intros m1 q1 E; discriminate E|intros m1 q1 x1 E; discriminate E]].
   - intro q1. unfold st', s1. cbn. unfold updZ. destruct (Z.eqb_spec q1 q) as [->|]; repeat split; reflexivity.
 Qed.
+
+(** ** the worker looks at the queue of its pipe *)
+Lemma exec_recv_F : forall p pe st m t i q r st' ev,
+  CInv (core st) -> XInv st -> ERel pe st m -> FRel p st m ->
+  ((exists m0, i = ILock m0 (LPqRecv q)) \/ i = ICvReacq q) ->
+  tcont (thr st t) = i :: r -> exec_instr st t i r = (st', ev) ->
+  FRel p st' (fold_left m14r_step (evs t ev) m).
+Proof.
+  intros p pe st m t i q r st' ev I X E R Hi Hc H.
+  destruct (f_own_pr _ _ _ R t i) as [O1 _]; [rewrite Hc; left; reflexivity|].
+  assert (Ow : wkr st t /\ tcur (thr st t) = Some CRecv /\ q = tpipe (thr st t)).
+  { destruct Hi as [[m0 ->]| ->]; [apply (O1 m0 q); left; reflexivity|apply (O1 MDL q); right; reflexivity]. }
+  destruct Ow as [W [Hcu Eq]].
+  assert (Nm : t <> main) by (intro Y; subst t; exact (main_not_wkr st X W)).
+  assert (Pri : pr i = true) by (destruct Hi as [[m0 ->]| ->]; reflexivity).
+  assert (Nui : forall m1 v, i <> IUnlock m1 (URet v)) by (intros m1 v Y; destruct Hi as [[m0 ->]| ->]; discriminate Y).
+  destruct (exec_instr_eff _ _ _ _ _ _ I Hc H) as [F _ _ _ Htret _ Hnoc].
+  assert (Tr : forall u, tret (thr st' u) = tret (thr st u)).
+  { apply Htret; intros; intro Y; destruct Hi as [[m1 ->]| ->]; discriminate Y. }
+  assert (Pev : forall e, In e ev -> f14_plain e).
+  { intros e He. destruct (Hnoc e He) as [A B]. destruct e; try exact Logic.I; [exfalso; eapply A; reflexivity|exfalso; eapply B; reflexivity]. }
+  assert (Core : exists mm hd, let s1 := acq_mtx (set_owner st (updM (owner st) mm (Some t))) t mm in
+                 (let '(s2, e2) := exec_lact s1 t (LPqRecv q) r in (s2, hd :: e2)) = (st', ev)).
+  { destruct Hi as [[m0 ->]| ->]; cbn [exec_instr] in H; [exists m0, (ELock m0)|exists (MPq q), (ECvWake q)]; exact H. }
+  destruct Core as [mm [hd Hx]]. cbn zeta in Hx. cbn [exec_lact] in Hx.
+  set (s1 := acq_mtx (set_owner st (updM (owner st) mm (Some t))) t mm) in *.
+  assert (P1 : pps s1 = pps st) by reflexivity.
+  destruct (pcancel (pps s1 q)) eqn:Epc.
+  - (* cancelled *)
+    inversion Hx; subst st' ev; clear Hx.
+    match goal with |- FRel p ?S' _ => set (st' := S') end.
+    apply (f_wret p st st' m _ t i r [] (IUnlock (MPq q) (URet RNoneV)) [] CRecv R (m14r_fplain_fold t _ m Pev) F Hc); auto.
+    + unfold st', s1. thr_simpl.
+    + intros j [].
+    + intros j [].
+    + exact Logic.I.
+    + intros m1 v Y. inversion Y; subst v. split; [intros z Z0; discriminate Z0|intros _; exact Logic.I].
+    + split; [intros m1 q1 [Y|Y]; discriminate Y|split; [intros m1 q1 Y; discriminate Y|intros m1 q1 x1 Y; discriminate Y]].
+    + intro q1. repeat split; reflexivity.
+  - destruct (psendq (pps s1 q)) as [|v rest] eqn:Eq0.
+    + (* nothing there: wait *)
+      inversion Hx; subst st' ev; clear Hx.
+      match goal with |- FRel p ?S' _ => set (st' := S') end.
+      apply (f_wret p st st' m _ t i r [ICvWait q] (ICvReacq q) [] CRecv R (m14r_fplain_fold t _ m Pev) F Hc); auto.
+      * unfold st', s1. thr_simpl.
+      * intros j [<-|[]]. exact Logic.I.
+      * intros j [].
+      * exact Logic.I.
+      * intros m1 v Y. discriminate Y.
+      * split; [intros m1 q1 [Y|Y]; [discriminate Y|inversion Y; subst q1; auto]|split; [intros m1 q1 Y; discriminate Y|intros m1 q1 x1 Y; discriminate Y]].
+      * intro q1. repeat split; reflexivity.
+    + (* a message is taken *)
+      inversion Hx; subst st' ev; clear Hx.
+      match goal with |- FRel p ?S' _ => set (st' := S') in * end.
+      assert (Hc' : tcont (thr st' t) = [IUnlock (MPq q) (URet (RVal v))] ++ r) by (unfold st', s1; thr_simpl).
+      pose proof F as [Hn [Hf Ho]].
+      assert (Cu : forall u, tcur (thr st' u) = tcur (thr st u)) by (intro u; apply Hf).
+      assert (Tp : forall u, tpipe (thr st' u) = tpipe (thr st u)) by (intro u; apply Hf).
+      assert (Wk : forall u, wkr st' u <-> wkr st u) by (intro u; unfold wkr; rewrite Hn, Tp; tauto).
+      assert (Mc : mcont st' = mcont st) by (unfold mcont; rewrite (Ho main (fun Y => Nm (eq_sym Y))); reflexivity).
+      assert (Cnt : prcount r = O /\ tret (thr st t) = RUnit).
+      { destruct (f_pr _ _ _ R t CRecv Hcu Logic.I) as [A B]. rewrite Hc, prcount_cons, Pri in A, B. split; [lia|apply B; lia]. }
+      destruct Cnt as [Cr Tu]. destruct (prcount0_rvals r Cr) as [Vr Nr].
+      assert (Ex : pexists (pps st q) = true).
+      { destruct (pexists (pps st q)) eqn:Ee; [reflexivity|exfalso]. destruct (f_noex _ _ _ R q Ee) as [_ [_ [Z0 _]]]. rewrite <- P1, Eq0 in Z0. discriminate Z0. }
+      assert (NotLate : ~ is_late m t).
+      { intro L. pose proof (f_late _ _ _ R t W L) as Pc. rewrite <- Eq, <- P1, Epc in Pc. discriminate Pc. }
+      assert (Pq' : psendq (pps st' q) = rest) by (unfold st', s1; cbn; unfold updZ; rewrite Z.eqb_refl; reflexivity).
+      assert (Inn : forall j, In j (tcont (thr st' t)) -> j = IUnlock (MPq q) (URet (RVal v)) \/ In j r).
+      { intros j Hj. rewrite Hc' in Hj. destruct Hj as [Hj|Hj]; [left; symmetry; exact Hj|right; exact Hj]. }
+      assert (Inr : forall j, In j r -> In j (tcont (thr st t))) by (intros j Hj; rewrite Hc; right; exact Hj).
+      assert (Prj : forall j, In j r -> pr j = false).
+      { clear - Cr. induction r as [|j0 k IH]; intros j Hj; [destruct Hj|]. rewrite prcount_cons in Cr. destruct (pr j0) eqn:Ej; [discriminate Cr|]. destruct Hj as [<-|Hj]; [exact Ej|apply IH; assumption]. }
+      apply (f_step p st st' m _ t i r q R (m14r_fplain_fold t _ m Pev) F Hc).
+      * intro q1. unfold st', s1. cbn. unfold updZ. destruct (Z.eqb_spec q1 q) as [->|Nq]; cbn; (split; [reflexivity|split; [reflexivity|]]); [intro Y; exfalso; apply Y; reflexivity|intros _; split; reflexivity].
+      * right. exact Ex.
+      * intro Y. exfalso. rewrite <- P1, Epc in Y. discriminate Y.
+      * intros u _. apply Tr.
+      * intros _. symmetry. exact Eq.
+      * intros q1 _. rewrite Mc. reflexivity.
+      * intros u Wu Eu.
+        assert (Ut : u = t) by (apply (e_wuniq _ _ _ E u t Wu W); rewrite Eu, Eq; reflexivity). subst u.
+        pose proof (f_ps _ _ _ R t W) as L. cbn zeta in L. rewrite <- Eq in L.
+        destruct (m14r_fplain_fold t (hd :: []) m Pev) as [M1 M2 M3 M4]. unfold dps in *. rewrite M1, M2, Mc, Pq'.
+        rewrite L. unfold rtransit. rewrite Hc, Hc', Cu, Hcu, Tr, Tu.
+        replace (rvals (i :: r)) with (@nil Z) by (rewrite (rvals_cons i r), Vr, app_nil_r; symmetry; apply rvals_one; intros m1 z Y; exact (Nui m1 _ Y)).
+        rewrite rvals_app, Vr. cbn [rvals flat_map app]. rewrite <- P1, Eq0. reflexivity.
+      * intros c0 _ L _. exfalso. apply NotLate. destruct (m14r_fplain_fold t (hd :: []) m Pev) as [_ _ _ M4]. unfold is_late in *. rewrite M4 in L. exact L.
+      * intros m1 q1 x1 Hin. exfalso. destruct (Inn _ Hin) as [Y|Hj]; [discriminate Y|]. destruct (f_own_send _ _ _ R t m1 q1 x1 (Inr _ Hj)) as [Z0 _]. exact (Nm Z0).
+      * intros q1 x1 Hq. rewrite Cu, Hcu in Hq. discriminate Hq.
+      * intros q1 Hq. rewrite Cu, Hcu in Hq. discriminate Hq.
+      * intros m1 q1 Hin. exfalso. destruct (Inn _ Hin) as [Y|Hj]; [discriminate Y|]. destruct (f_own_cs _ _ _ R t m1 q1 (Inr _ Hj)) as [Z0 _]. exact (Nm Z0).
+      * intros m1 v1 Hin. rewrite Cu, Hcu. destruct (Inn _ Hin) as [Y|Hj]; [|exfalso; exact (Nr m1 v1 Hj)].
+        split; [intros q1 x1 Z0; discriminate Z0|]. intros z _. split; [reflexivity|apply Wk; exact W].
+      * intros j Hin. destruct (Inn _ Hin) as [Y|Hj].
+        -- subst j. split; [intros m1 q1 [Y|Y]; discriminate Y|split; [intros m1 q1 Y; discriminate Y|intros m1 q1 x1 Y; discriminate Y]].
+        -- pose proof (Prj j Hj) as Pj. split; [intros m1 q1 [Y|Y]; subst j; discriminate Pj|split; [intros m1 q1 Y; subst j; discriminate Pj|intros m1 q1 x1 Y; subst j; discriminate Pj]].
+      * intros c0 Hc0 _. rewrite Cu, Hcu in Hc0. inversion Hc0; subst c0. rewrite Tr, Tu, Hc', prcount_app, Cr. split; [cbn; lia|reflexivity].
+Qed.
